@@ -71,6 +71,13 @@ CHECKS["C08"] = ("model_checking", "explicit-state search over (receive buffer, 
          "States are the connection's buffer/spare-capacity/adaptor-buffer triples reached by datagram histories (both adaptors, both modes); actions are datagrams of 6-16 compositions (1..255 packets, 4..1020 bytes); every spare-capacity value (multiples of 4 from 6120 down to 0 and across the reclaim) is reached and every composition is tried in it; oracle: the packets read equal the frames of the datagram just sent; every kind's packet leaves as exactly one datagram holding its frame.",
          "Loopback UDP, one datagram in flight; 400 ms search watchdog, witnesses re-confirmed with a 2 s watchdog.", "DESIGN.md §4 C08", "E2")
 
+CHECKS["C18"] = ("model_checking", "explicit-state search over all reachable states of the real Builder (setter histories replayed on fresh objects) against a reference builder, plus loopback connects",
+         "All builder states reachable with a 33-setter (quick) / 43-setter (thorough) alphabet - each flag helper on/off, wholesale flag replacement, prefix / interval / name / password / request id present or absent, tcp, udp with and without local address, compressed, uncompressed, relay - are explored; on every transition isi() must not panic and must equal the reference builder's ISI (documented defaults, later calls override earlier ones). 72 connects (tcp / udp without / with local address x mode x blocking/tokio x 6 ISI configurations) check that the peer receives exactly the encoded ISI and nothing else.",
+         "Setter arguments are limited to 2-3 representatives each.", "DESIGN.md §4 C18", "E2")
+CHECKS["C20"] = ("model_checking", "exhaustive enumeration of message schedules (partitions, interleavings, read sizes) executed on real loopback WebSocket connections",
+         "Adaptor level: every partition of an 8/12-byte stream into binary messages x 8 caller read sizes, text / ping / empty-binary messages inserted at every boundary, messages larger than the 1020-byte adaptor buffer: bytes read = concatenated binary payloads, close = 0-byte read. Connection level: frame sequences x message partitions give exactly the TCP reference results and Disconnected on close; every kind's packet leaves as exactly one binary message holding its frame.",
+         "Loopback TCP with a tungstenite server inside the harness; 2 s watchdog on every await.", "DESIGN.md §4 C20", "E2")
+
 NOT_BUILT = {}
 
 def main():
